@@ -535,6 +535,26 @@ pub fn sites() -> Vec<Site> {
         s.push_str("}\nr0\n");
         main_only(s, Expect::None)
     }));
+    // the same cycle entered from an asm block that is the value of a data element / of a constant (the recursion
+    // counter then starts from another depth)
+    v.push(site("cycle-asm-rule-from-data", Cycle, "#ruledef { r0 => asm { r1 } ... } / #d asm { r0 }", |m| {
+        let n = m.n();
+        let mut s = String::from("#ruledef {\n");
+        for i in 0..n {
+            s.push_str(&format!(" r{} => asm {{ r{} }}\n", i, (i + 1) % n));
+        }
+        s.push_str("}\n#d asm { r0 }\n");
+        main_only(s, Expect::None)
+    }));
+    v.push(site("cycle-asm-rule-from-constant", Cycle, "#ruledef { r0 => asm { r1 } ... } / v = asm { r0 } / #d8 v", |m| {
+        let n = m.n();
+        let mut s = String::from("#ruledef {\n");
+        for i in 0..n {
+            s.push_str(&format!(" r{} => asm {{ r{} }}\n", i, (i + 1) % n));
+        }
+        s.push_str("}\nv = asm { r0 }\n#d8 v\n");
+        main_only(s, Expect::None)
+    }));
     v.push(site("cycle-subrule", Cycle, "#subruledef ta { {q: tb} => q } ... #subruledef t<last> { {q: ta} => q } #ruledef { a {q: ta} => q } / a 1", |m| {
         let n = m.n();
         let names = ["ta", "tb", "tc", "td"];
